@@ -37,10 +37,15 @@ def structure(prog):
     except KeyError as e:
         out.append(('get_css_files/structure', None, str(e)))
     try:
+        from . import cli_struct as CS
         fn, m = prog.func(f'{CLI}:main')
-        loops = [n for n in ast.walk(fn) if isinstance(n, ast.For) and ast.unparse(n.iter) == 'files']
-        ok = False; detail = {}
-        if len(loops) == 1:
+        loops = CS.files_loop(fn)
+        N1 = 'main/per_file_loop[whole body inside try/except Exception; handler does not re-raise, break or return]'
+        N2 = 'main/per_file_state[everything handed to the per-rule processing is an option of main, the file itself, the report accumulator, or (re)bound earlier in the same iteration]'
+        N3 = 'main/no_cross_file_state[the only function-level names the loop body reads are the options and the report accumulator]'
+        if len(loops) != 1:
+            out.append((N1, None, f'{len(loops)} loops over the stylesheet list'))
+        else:
             lp = loops[0]
             body = [st for st in lp.body if not (isinstance(st, ast.Expr) and isinstance(st.value, ast.Constant))]
             if len(body) == 1 and isinstance(body[0], ast.Try):
@@ -50,35 +55,37 @@ def structure(prog):
                 escapes = [type(x).__name__ for h in hs for st in h.body for x in ast.walk(st) if isinstance(x, (ast.Raise, ast.Break, ast.Return))]
                 detail = {'catches': catches, 'escapes': escapes, 'finally': bool(tr.finalbody)}
                 ok = ('Exception' in catches or 'BaseException' in catches) and not escapes and not any(isinstance(x, (ast.Break,)) for st in tr.body for x in ast.walk(st) if not isinstance(st, (ast.For, ast.While)))
-                # per-file state bound inside the try body before the processing call
-                bound = []
-                for st in tr.body:
-                    for x in ast.walk(st):
-                        if isinstance(x, ast.Assign):
-                            for t in x.targets:
-                                if isinstance(t, ast.Name): bound.append((t.id, x.lineno))
-                call_line = min((x.lineno for st in tr.body for x in ast.walk(st) if isinstance(x, ast.Call) and ast.unparse(x.func) == 'process_nodes_recursive'), default=None)
-                need = {'rules', 'variables', 'rule_declarations_map', 'css_content'}
-                first = {n: min(l for nn, l in bound if nn == n) for n in need if any(nn == n for nn, l in bound)}
-                detail['bound_in_loop'] = first
-                ok2 = call_line is not None and set(first) == need and all(l < call_line for l in first.values())
-                out.append(('main/per_file_loop[whole body inside try/except Exception; handler does not re-raise, break or return]', ok, detail))
-                out.append(('main/per_file_state[rules, variables, rule_declarations_map, css_content are (re)bound inside the loop before processing]', ok2, first))
+                out.append((N1, ok, detail))
             else:
-                out.append(('main/per_file_loop[whole body inside try/except Exception; handler does not re-raise, break or return]', False, 'loop body is not a single try statement'))
-        else:
-            out.append(('main/per_file_loop', None, f'{len(loops)} loops over `files`'))
-        # names used inside the loop but bound outside it (besides the options, stats and helpers) would be cross-file state
-        if len(loops) == 1:
-            lp = loops[0]
-            inner_bound = {t.id for x in ast.walk(lp) if isinstance(x, ast.Assign) for t in x.targets if isinstance(t, ast.Name)} | {x.id for x in ast.walk(lp.target) if isinstance(x, ast.Name)}
-            inner_bound |= {it.optional_vars.id for x in ast.walk(lp) if isinstance(x, ast.With) for it in x.items if isinstance(it.optional_vars, ast.Name)}
-            inner_bound |= {x.name for x in ast.walk(lp) if isinstance(x, ast.ExceptHandler) and x.name}
-            used = {x.id for st in lp.body for x in ast.walk(st) if isinstance(x, ast.Name) and isinstance(x.ctx, ast.Load)}
-            outer = {t.id for x in ast.walk(fn) if isinstance(x, ast.Assign) and x not in list(ast.walk(lp)) for t in x.targets if isinstance(t, ast.Name)}
+                out.append((N1, False, 'loop body is not a single try statement'))
+            call, acc = CS.processing_call_args(fn, lp)
             params = {a.arg for a in fn.args.args}
-            shared = sorted((used & outer) - inner_bound - params)
-            out.append(('main/no_cross_file_state[the only function-level names the loop body reads are the options and the stats accumulator]', set(shared) <= {'stats'}, shared))
+            loop_targets = {x.id for x in ast.walk(lp.target) if isinstance(x, ast.Name)}
+            bound_in_loop = {}
+            for x in ast.walk(lp):
+                if isinstance(x, ast.Assign):
+                    for t in x.targets:
+                        for y in ast.walk(t):
+                            if isinstance(y, ast.Name) and isinstance(y.ctx, ast.Store): bound_in_loop.setdefault(y.id, x.lineno); bound_in_loop[y.id] = min(bound_in_loop[y.id], x.lineno)
+                elif isinstance(x, ast.With):
+                    for it in x.items:
+                        if isinstance(it.optional_vars, ast.Name): bound_in_loop.setdefault(it.optional_vars.id, x.lineno)
+                elif isinstance(x, ast.ExceptHandler) and x.name: bound_in_loop.setdefault(x.name, x.lineno)
+                elif isinstance(x, (ast.For, ast.comprehension)):
+                    for y in ast.walk(x.target):
+                        if isinstance(y, ast.Name): bound_in_loop.setdefault(y.id, getattr(x, 'lineno', lp.lineno))
+            if call is None:
+                out.append((N2, None, 'no single process_nodes_recursive call inside the loop'))
+            else:
+                argn = [a.id for a in list(call.args) + [k.value for k in call.keywords] if isinstance(a, ast.Name)]
+                bad = [n for n in argn if not (n in params or n in loop_targets or n == acc or (n in bound_in_loop and bound_in_loop[n] < call.lineno))]
+                out.append((N2, not bad and acc is not None, {'arguments': argn, 'accumulator': acc, 'not_rebound_per_file': bad}))
+            used = {x.id for st in lp.body for x in ast.walk(st) if isinstance(x, ast.Name) and isinstance(x.ctx, ast.Load)}
+            inner = set(bound_in_loop) | loop_targets
+            inside = set(id(x) for x in ast.walk(lp))
+            outer = {t.id for x in ast.walk(fn) if isinstance(x, ast.Assign) and id(x) not in inside for t in x.targets if isinstance(t, ast.Name)}
+            shared = sorted((used & outer) - inner - params - ({acc} if acc else set()))
+            out.append((N3, not shared, shared))
     except KeyError as e:
         out.append(('main/per_file_loop', None, str(e)))
     out.append(output_name_lemma(prog))
@@ -87,44 +94,18 @@ def structure(prog):
 
 def output_name_lemma(prog):
     """the name main() writes is never taken as an input by a later directory run: resolve the expression opened for writing
-    to a concatenation of file_path.stem / file_path.suffix / string literals (single-assignment dataflow on the real AST), then
-    z3 strings: for every input name yielded by get_css_files (suffix == '.css', or the dot-file '.css' whose suffix is empty)
+    to a concatenation of <input>.stem / <input>.suffix / string literals (single-assignment dataflow on the real AST, name-independent),
+    then z3 strings: for every input name yielded by get_css_files (suffix == '.css', or the dot-file '.css' whose suffix is empty)
     the written name ends with '_cm.css' or does not end with '.css'.  A counter-model is a concrete file name (replayed by the twin)."""
-    import ast, z3
+    import z3
+    from . import cli_struct as CS
     name = "main/output_name_filtered[the file written for x.css is skipped by get_css_files: ends with '_cm.css' or not '.css'] (dataflow + z3 strings)"
-    try: fn, m = prog.func(f'{CLI}:main')
-    except KeyError as e: return (name, None, str(e))
-    assigns = {}
-    for n in ast.walk(fn):
-        if isinstance(n, ast.Assign) and len(n.targets) == 1 and isinstance(n.targets[0], ast.Name): assigns.setdefault(n.targets[0].id, []).append(n.value)
-    def res(e):
-        d = 0
-        while isinstance(e, ast.Name) and len(assigns.get(e.id, [])) == 1 and d < 6: e = assigns[e.id][0]; d += 1
-        return e
-    opens = [n for n in ast.walk(fn) if isinstance(n, ast.Call) and ast.unparse(n.func) == 'open' and len(n.args) >= 2 and isinstance(n.args[1], ast.Constant) and 'w' in str(n.args[1].value)]
-    if len(opens) != 1: return (name, None, f'{len(opens)} files opened for writing in main')
-    target = res(opens[0].args[0])
-    loopvar = next((ast.unparse(l.target) for l in ast.walk(fn) if isinstance(l, ast.For) and ast.unparse(l.iter) == 'files'), None)
-    if loopvar is None: return (name, None, 'no loop over `files`')
-    if isinstance(target, ast.BinOp) and isinstance(target.op, ast.Div) and ast.unparse(target.left) == f'{loopvar}.parent': nm = res(target.right)
-    elif isinstance(target, ast.Call) and ast.unparse(target.func) == f'{loopvar}.with_name' and len(target.args) == 1: nm = res(target.args[0])
-    else: return (name, None, f'written path {ast.unparse(target)!r} is not <input>.parent / NAME nor <input>.with_name(NAME)')
+    build, det = CS.written_name(prog)
+    if build is None: return (name, None, det)
+    if build == 'INPUT': return (name, False, det)
     stem, suf = z3.String('stem'), z3.String('suffix')
-    def term(e):
-        e = res(e)
-        if isinstance(e, ast.BinOp) and isinstance(e.op, ast.Add): return z3.Concat(term(e.left), term(e.right))
-        if isinstance(e, ast.Constant) and isinstance(e.value, str): return z3.StringVal(e.value)
-        if ast.unparse(e) == f'{loopvar}.stem': return stem
-        if ast.unparse(e) == f'{loopvar}.suffix': return suf
-        if ast.unparse(e) == f'{loopvar}.name': return z3.Concat(stem, suf)
-        if isinstance(e, ast.JoinedStr):
-            parts = [term(v.value) if isinstance(v, ast.FormattedValue) and v.conversion == -1 and v.format_spec is None else term(v) for v in e.values]
-            return z3.Concat(*parts) if len(parts) > 1 else parts[0]
-        raise ValueError(ast.unparse(e))
-    try: t = term(nm)
+    try: t = build(z3, stem, suf)
     except ValueError as e: return (name, None, f'written name contains {e} (not stem / suffix / literal)')
-    # pathlib: name == stem + suffix; the inputs get_css_files yields end with '.css': suffix == '.css', or the dot-file '.css' (stem '.css', no suffix).
-    # One query per case with the constants substituted (keeps z3's sequence solver on trivial ground).
     for case, sub in (("suffix=='.css'", [(suf, z3.StringVal('.css'))]), ("dot-file '.css'", [(suf, z3.StringVal('')), (stem, z3.StringVal('.css'))])):
         tc = z3.simplify(z3.substitute(t, *sub))
         so = z3.Solver(); so.set('timeout', 20000)
@@ -134,9 +115,9 @@ def output_name_lemma(prog):
         if r == z3.sat:
             mdl = so.model()
             st_ = '.css' if case.startswith('dot') else mdl.eval(stem, True).as_string()
-            return (name, False, {'written_name': ast.unparse(nm), 'case': case, 'counterexample_input_name': st_ + ('' if case.startswith('dot') else '.css')})
+            return (name, False, dict(det, case=case, counterexample_input_name=st_ + ('' if case.startswith('dot') else '.css')))
         if r != z3.unsat: return (name, None, f'z3 ({case}): {so.reason_unknown()}')
-    return (name, True, {'written_name': ast.unparse(nm)})
+    return (name, True, det)
 
 
 GOOD = ['.a { color: #888; background-color: #fff }\n', ':root { --m: #8a8a8a }\n.b { color: var(--m) }\n@media print { .c { color: #999 } }\n', '/* only a comment */\n.d { margin: 0 }\n',
